@@ -52,12 +52,44 @@ def enc_identity(da):
     return [str(d) for d in da.dims], cnames, cvals, attrs
 
 
+def build_array(codes, dtype, valmap, layout, nan_code=NANV):
+    """codes (H x W small ints) -> ndarray of `dtype` holding valmap[str(code)] (the code itself when there is no
+    valmap), in the requested memory layout.  The values only ever reach TLC as codes."""
+    dt = np.dtype(dtype)
+
+    def val(c):
+        if c == nan_code and dt.kind == "f":
+            return np.nan
+        sv = valmap[str(c)] if valmap else c
+        return float(sv) if dt.kind == "f" else int(sv)
+    H, W = len(codes), len(codes[0])
+    a = np.empty((H, W), dtype=dt)
+    for r in range(H):
+        for c in range(W):
+            a[r, c] = val(codes[r][c])
+    pool = sorted(set(v for row in codes for v in row if not (v == nan_code and dt.kind == "f")))
+    if layout in (None, "C"):
+        return np.ascontiguousarray(a)
+    if layout == "F":
+        return np.asfortranarray(a)
+    if layout == "T":                      # transposed view of a C-ordered array
+        return np.ascontiguousarray(a.T).T
+    if layout == "R":                      # view with negative strides
+        return np.ascontiguousarray(a[::-1, ::-1])[::-1, ::-1]
+    if layout == "S":                      # every second row / column of a larger array filled with other cells
+        big = np.empty((2 * H, 2 * W), dtype=dt)
+        for r in range(2 * H):
+            for c in range(2 * W):
+                big[r, c] = val(pool[(r * 3 + c) % len(pool)]) if pool else 0
+        big[::2, ::2] = a
+        return big[::2, ::2]
+    raise ValueError("layout %r" % layout)
+
+
 def run_job(j):
     H, W = j["H"], j["W"]
     dtype = j.get("dtype", "float64")
-    a = np.array(j["vals"], dtype=np.float64)
-    a[a == NANV] = np.nan
-    data = a.astype(dtype)
+    data = build_array(j["vals"], dtype, j.get("valmap"), j.get("layout"))
     dims = j.get("dims") or ["y", "x"]
     coords = {dims[0]: np.array(j["ys"], dtype=np.float64), dims[1]: np.array(j["xs"], dtype=np.float64)}
     for k, v in (j.get("scalar") or {}).items():
